@@ -45,7 +45,7 @@ ANCHORS = ['pfhedge.nn.modules.hedger:Hedger.compute_hedge',
            'pfhedge.nn.functional:quadratic_cvar']
 DECIDING = ["grad.matches_fd", "nograd.no_graph", "grad.enable_grad_has_graph"]
 REQUIRED_BRANCHES = ["grad_after_no_grad_pass", "branch.stepwise", "branch.vectorised", "cost>0", "criterion.QuadraticCVaR.concentrated", "mode.eval", "mode.train",
-                     "output_activation.saves_output", "H>1", "model.clamp_with_parameter_dependent_bounds", "prev_hedge.through_parameter_free_module_output"]
+                     "output_activation.saves_output", "H>1", "model.clamp_with_parameter_dependent_bounds", "prev_hedge.through_parameter_free_module_output", "parameter_point.zero_output_layer", "model.random_layer_in_train_mode"]
 
 
 def _u(x):
@@ -89,7 +89,11 @@ class NoTransactionBand(torch.nn.Module):
 
 
 def make_model(rng, n_in, n_out, prev):
-    kind = pick(rng, ["linear", "mlp", "mlp", "recurrent"] + (["ntb"] if n_out == 1 else []) if prev else ["linear", "mlp", "mlp"])
+    kind = pick(rng, ["linear", "mlp", "mlp", "recurrent", "dropout"] + (["ntb"] if n_out == 1 else []) if prev else ["linear", "mlp", "mlp", "dropout"])
+    if kind == "dropout":
+        # a random layer: with the random state fixed before every evaluation the loss is a deterministic function of the parameters, and its
+        # gradient is the gradient for *that* mask
+        return torch.nn.Sequential(torch.nn.Linear(n_in, 6), torch.nn.Tanh(), torch.nn.Dropout(0.3), torch.nn.Linear(6, n_out)), kind, "identity"
     if kind == "ntb":
         leaky = bool(rng.random() < 0.5)
         return NoTransactionBand(n_in, leaky), "ntb_leaky" if leaky else "ntb", "clamp"
@@ -104,7 +108,7 @@ def make_model(rng, n_in, n_out, prev):
 
 
 def drv_grad(ctx, k, rng):
-    stock = P.make_stock(rng, pick(rng, ["brownian", "heston", "merton", "kou", "localvol"]), dtype=F64, cost=float(pick(rng, [0.0, 1e-3, 1e-2])),
+    stock = P.make_stock(rng, pick(rng, ["brownian", "heston", "merton", "kou", "localvol"]), dtype=F64, cost=float(pick(rng, [0.0, 1e-3, 1e-2])) if k % 16 != 9 else 0.0,
                          dt=float(pick(rng, [1 / 250, 1 / 52])))
     derivative = P.make_derivative(rng, stock, pick(rng, ["european", "lookback", "european", "forward_start", "european_binary"]),
                                    n_steps=int(pick(rng, [2, 3, 5])), clauses=False)
@@ -150,6 +154,8 @@ def drv_grad(ctx, k, rng):
         model, mk, oa = MultiLayerPerceptron(in_features=n_in, out_features=n_h, n_layers=1, n_units=4, activation=torch.nn.Tanh(), out_activation=torch.nn.Tanh()), "mlp", "tanh"
     if k % 8 == 7 and n_h == 1:
         model, mk, oa = NoTransactionBand(n_in, k % 16 == 7), ("ntb_leaky" if k % 16 == 7 else "ntb"), "clamp"
+    if k % 16 == 9:
+        model, mk, oa = torch.nn.Linear(n_in, n_h), "linear", "identity"  # deterministic coverage of the zero-output-layer point (below)
     if mk.startswith("ntb"):
         ctx.branch("model.clamp_with_parameter_dependent_bounds")
     model.to(F64)
@@ -174,8 +180,22 @@ def drv_grad(ctx, k, rng):
     with torch.no_grad():
         for p in plist:
             p.add_(torch.as_tensor(rng.standard_normal(tuple(p.shape)) * 0.3).to(p))
+    zero_out = False
+    if (rng.random() < 0.12 or k % 16 == 9) and mk in ("linear", "mlp", "dropout") and oa == "identity" and stock.cost == 0:
+        # a particular (and common: zero initialisation) parameter point: the last layer is exactly zero, so every position is exactly zero.
+        # Without transaction costs the loss is smooth there and its gradient with respect to that layer is not zero.
+        last = [m_ for m_ in hedger.model.modules() if isinstance(m_, torch.nn.Linear)][-1]
+        with torch.no_grad():
+            last.weight.zero_()
+            last.bias.zero_()
+        zero_out = True
+        ctx.branch("parameter_point.zero_output_layer")
+    mask_seed = int(rng.integers(1 << 30))
+    if mk == "dropout" and mode == "train":
+        ctx.branch("model.random_layer_in_train_mode")
 
     def loss():
+        torch.manual_seed(mask_seed)
         return hedger.criterion(hedger.compute_portfolio(derivative, hedge), derivative.payoff())
 
     if rng.random() < 0.5:
